@@ -89,6 +89,18 @@ func (l *Lexer) atEOF() bool {
 	return l.pos >= len(l.input)
 }
 
+// atTaskKeyword returns whether or not the lexer is sat on the 'task' keyword, that is the word
+// 'task' on its own and not merely an identifier that starts with it e.g. 'tasks' or 'taskfile'.
+func (l *Lexer) atTaskKeyword() bool {
+	rest := l.rest()
+	keyword := token.TASK.String()
+	if !strings.HasPrefix(rest, keyword) {
+		return false
+	}
+	r, _ := utf8.DecodeRuneInString(rest[len(keyword):])
+	return !isValidIdent(r)
+}
+
 // skipWhitespace consumes any utf-8 whitespace until something meaningful is hit.
 func (l *Lexer) skipWhitespace() {
 	for {
@@ -236,7 +248,7 @@ func lexStart(l *Lexer) lexFn {
 	switch {
 	case strings.HasPrefix(l.rest(), token.HASH.String()):
 		return lexHash
-	case strings.HasPrefix(l.rest(), token.TASK.String()):
+	case l.atTaskKeyword():
 		return lexTaskKeyword
 	case isValidIdent(l.peek()):
 		return lexIdent
@@ -484,6 +496,7 @@ func lexIdent(l *Lexer) lexFn {
 			break
 		}
 	}
+	isKeyword := l.all() == token.TASK.String()
 	l.emit(token.IDENT)
 	l.skipWhitespace()
 
@@ -493,6 +506,16 @@ func lexIdent(l *Lexer) lexFn {
 		return lexLeftParen
 	case strings.HasPrefix(l.rest(), token.DECLARE.String()):
 		// We have a global variable declaration
+		if isKeyword {
+			// A variable can't be called 'task': a declaration starts a line, where 'task'
+			// on its own begins a task definition (and that is how the formatter would print it)
+			return l.error(syntaxError{
+				message: "'task' is a keyword and cannot be used as a variable name",
+				context: l.getLine(),
+				line:    l.line,
+				pos:     l.pos,
+			})
+		}
 		return lexDeclare
 	case l.atEOL(), l.atEOF():
 		// We've just lexed an ident on the RHS of a declaration
